@@ -665,11 +665,13 @@ luaL_setfuncs({LUA_state_var}, {LUA_class_reg}, 0);
 #        print("DDDDDDDDDDDDDD", ast.name)
         if is_ctor:
             sgroup ="shadow"
+            spointer = None
             sintent = "ctor"
             fmt_func.LUA_used_param_state = True
 #            self.helpers.add_helper("maker", fmt_func)
         elif is_dtor:
             sgroup ="shadow"
+            spointer = None
             sintent = "dtor"
             fmt_func.LUA_used_param_state = True
         elif CXX_subprogram == "subroutine":
@@ -1145,6 +1147,17 @@ lua_statements = [
         pre_call=[
             "{cxx_type} * {cxx_var} =\t {pop_expr};",
         ],
+    ),
+    dict(
+        # By reference and by value: the object held by the userdata.
+        name="lua_shadow_&_in",
+        pre_call=[
+            "{cxx_type} & {cxx_var} =\t *{pop_expr};",
+        ],
+    ),
+    dict(
+        name="lua_shadow_scalar_in",
+        base="lua_shadow_&_in",
     ),
     dict(
         name="lua_shadow_*_result",
